@@ -12,10 +12,17 @@
 //	         observably in the state of the uninterrupted run,
 //	    and sends its classification to the model, which must have predicted it.
 //
-// Case language: as dbdrv (commit / finalize / prune), the last line is L.
+// Case language: as dbdrv (commit / finalize / prune) plus
+//
+//	restore <tag> <type> <version> <k=v,..>   a checkpoint of a tree with these contents is created
+//	      from a scratch database and restored: StartMultipartInsert, every chunk through the real
+//	      checkpoint.Restorer, Finalize
+//
+// The last line is L.
 package main
 
 import (
+	"bytes"
 	"context"
 	"encoding/json"
 	"errors"
@@ -32,6 +39,7 @@ import (
 	"github.com/oasisprotocol/oasis-core/go/common"
 	"github.com/oasisprotocol/oasis-core/go/common/crypto/hash"
 	"github.com/oasisprotocol/oasis-core/go/storage/mkvs"
+	"github.com/oasisprotocol/oasis-core/go/storage/mkvs/checkpoint"
 	"github.com/oasisprotocol/oasis-core/go/storage/mkvs/db/api"
 	"github.com/oasisprotocol/oasis-core/go/storage/mkvs/db/badger"
 	"github.com/oasisprotocol/oasis-core/go/storage/mkvs/db/pathbadger"
@@ -311,6 +319,73 @@ func (b *runner) exec(op string) (skip bool, res string, facts string) {
 			}
 		}
 		return false, res, ""
+	case w[0] == "restore" && len(w) == 5:
+		tag := w[1]
+		t, _ := strconv.Atoi(w[2])
+		v, _ := strconv.Atoi(w[3])
+		want, seq := applyWrites(contents{}, w[4])
+		// source: a scratch in-memory database holding the tree at version v
+		src, err := badger.New(&api.Config{MemoryOnly: true, Namespace: ns, MaxCacheSize: 4 << 20})
+		if err != nil {
+			return false, "other:src", ""
+		}
+		defer src.Close()
+		tr := mkvs.New(nil, src, node.RootType(t+1))
+		for _, kv := range seq {
+			if kv[1] != "" {
+				_ = tr.Insert(ctx, []byte(kv[0]), []byte(kv[1]))
+			}
+		}
+		_, hh, err := tr.Commit(ctx, ns, uint64(v))
+		tr.Close()
+		if err != nil {
+			return false, "other:srccommit", ""
+		}
+		root := node.Root{Namespace: ns, Version: uint64(v), Type: node.RootType(t + 1), Hash: hh}
+		if err = src.Finalize([]node.Root{root}); err != nil {
+			return false, "other:srcfinalize", ""
+		}
+		cpDir, err := os.MkdirTemp(scratch(), "crashdrv-cp-")
+		if err != nil {
+			return false, "other:cpdir", ""
+		}
+		defer os.RemoveAll(cpDir)
+		fc, _ := checkpoint.NewFileCreator(cpDir, src)
+		meta, err := fc.CreateCheckpoint(ctx, root, 96, 0)
+		if err != nil {
+			return false, "other:createcheckpoint:" + strings.ReplaceAll(err.Error(), " ", "_"), ""
+		}
+		// target: the database under test
+		if err = b.db.StartMultipartInsert(uint64(v)); err != nil {
+			return false, errName(err), fmt.Sprintf("chunks=%d", len(meta.Chunks))
+		}
+		rs, _ := checkpoint.NewRestorer(b.db)
+		if err = rs.StartRestore(ctx, meta); err != nil {
+			return false, "other:startrestore", ""
+		}
+		for idx := range meta.Chunks {
+			cm, _ := meta.GetChunkMetadata(uint64(idx))
+			var buf bytes.Buffer
+			if err = fc.GetCheckpointChunk(ctx, cm, &buf); err != nil {
+				return false, "other:getchunk", ""
+			}
+			if _, err = rs.RestoreChunk(ctx, uint64(idx), &buf); err != nil {
+				_ = b.db.AbortMultipartInsert()
+				return false, "chunk:" + errName(err), fmt.Sprintf("chunks=%d", len(meta.Chunks))
+			}
+		}
+		res := errName(b.db.Finalize([]node.Root{root}))
+		rec := rootRec{T: t, V: v, H: hh.Hex()}
+		if res == "ok" {
+			b.tags[tag] = rec
+			b.cont[tag] = want
+			b.addKnown(rec)
+			b.last = v
+			b.fin[rec.key()] = want.String()
+		} else {
+			_ = b.db.AbortMultipartInsert()
+		}
+		return false, res, fmt.Sprintf("chunks=%d", len(meta.Chunks))
 	case w[0] == "prune" && len(w) == 2:
 		v, _ := strconv.Atoi(w[1])
 		// fact for the model: does the pruned version have a lone root with a non-empty tree?
@@ -647,6 +722,19 @@ func check(kind string, ops []string, res *hlib.Result, count bool) []verdict {
 			if nowRead[key] != c {
 				vs = append(vs, verdict{"spec", fmt.Sprintf("%s:crash-finalized-root-lost:%s", kind, boundaryBase(bnd)),
 					fmt.Sprintf("after a crash at %s finalized root %s reads %s, before the operation %s", bnd, key, nowRead[key], c)})
+			}
+		}
+		// 3. no partially restored checkpoint is visible as a finalized root
+		if k == "restore" {
+			w := strings.Fields(lastOp)
+			want, _ := applyWrites(contents{}, w[4])
+			if l, ok := db.GetLatestVersion(); ok && strconv.FormatUint(l, 10) == w[3] {
+				for _, r := range ref.Known {
+					if strconv.Itoa(r.V) == w[3] && nowRead[r.key()] != want.String() {
+						vs = append(vs, verdict{"spec", fmt.Sprintf("%s:crash-restored-version-finalized-but-unreadable:%s", kind, boundaryBase(bnd)),
+							fmt.Sprintf("after a crash at %s the restored version %s is the last finalized version but its root %s reads %s (checkpoint contents %s)", bnd, w[3], r.key(), nowRead[r.key()], want.String())})
+					}
+				}
 			}
 		}
 		// 2. old, new, or retry completes
